@@ -45,6 +45,8 @@ def msg_strategy(big=False):
         'comp': st.sampled_from([0, 1, 2, 3]),
         'signers': st.lists(st.sampled_from(['ed25519-1', 'ecdsa-p256-0', 'dsa1024-0', 'rsa1024-1']), max_size=2, unique=True),
         'peek': st.booleans(),
+        # text under format 't' in a declared character set (PGPMessage.new(..., encoding=)); None = ASCII text only
+        'charset': st.sampled_from([None, None, None, 'cp1252', 'koi8-r', 'latin-1']),
     })
 
 
@@ -68,7 +70,11 @@ def build_pgpy_message(spec):
             text = body.decode('utf-8')
         except UnicodeDecodeError:
             text = body.decode('latin-1')
-        if fmt == 't' and not pgpy.PGPMessage.is_ascii(text):
+        if fmt == 't' and spec.get('charset'):
+            # the same octets read under the declared character set (undefined positions replaced), handed over as text
+            text = body[:200].decode(spec['charset'], 'replace').replace('\ufffd', '?')
+            kw['encoding'] = spec['charset']
+        elif fmt == 't' and not pgpy.PGPMessage.is_ascii(text):
             fmt = 'u'
         msg = pgpy.PGPMessage.new(text, format=fmt, **kw)
     elif fmt is None:
